@@ -225,7 +225,7 @@ pub fn run_input(input: &Value) -> Case {
         impl_g
     );
     let nontrivial = !etags.is_empty();
-    Case { gallina, json: out, class, nontrivial, key: serde_json::to_string(input).unwrap() }
+    Case { gallina, json: out, class, nontrivial, key: serde_json::to_string(input).unwrap(), features: vec![] }
 }
 
 // ---------------------------------------------------------------- generator
